@@ -140,6 +140,64 @@ def run(ctx):
     except Skip:
         pass
 
+    # must_skip: true exactly when the path or one of its ancestors below the base is on the skip list
+    try:
+        msf = ctx.anchor_fn("R14.2", D + "::DirTourist::must_skip")
+        badm = []
+        n_t = n_f = 0
+        for q in pathx.Enum().paths(thir.root(msf)):
+            last_c = None
+            base = None
+            for e in q.ev:      # top-level events only: what decided the exit
+                if e[0] == "branch":
+                    core, neg = pathx.split_not(e[1])
+                    tr = (e[2] != neg)
+                    if core.startswith("HashSet::contains(self.to_skip, "):
+                        last_c = tr
+                    elif core in ("PartialEq::eq(parent, self.base)", "PartialEq::eq(self.base, parent)"):
+                        base = tr
+                    elif core in ("PartialEq::ne(parent, self.base)", "PartialEq::ne(self.base, parent)"):
+                        base = not tr
+            res = q.val if q.out in ("ret", "val") else q.out
+            sh = pathx.show_events([e for e in q.ev if e[0] != "loop"])[-200:]
+            if res == "True":
+                n_t += 1
+                if last_c is not True:
+                    badm.append("returns true without a hit in the skip list: " + sh)
+            elif res == "False":
+                n_f += 1
+                if last_c is not False and not (base is True):
+                    badm.append("returns false right after a hit: " + sh)
+                none_parent = any(e[0] == "iflet" and e[1] == "Path::parent(path)" and not (e[3] if "Some" in e[2] else not e[3]) for e in q.ev)
+                if not (base is True or none_parent):
+                    badm.append("gives up before reaching the base or the root: " + sh)
+            else:
+                badm.append("unexpected result %s" % res)
+            for e in q.ev:
+                if e[0] == "loop":
+                    for it in e[1]:
+                        adv = [x for x in it if x[0] == "assign" and x[1] == "path" and x[2] == "parent"]
+                        hit = [x for x in it if x[0] == "branch" and pathx.split_not(x[1])[0] == "HashSet::contains(self.to_skip, parent)"]
+                        if not adv or not hit or ("loop-break",) in it:
+                            badm.append("an iteration that goes on does not test the parent and move up to it: " + pathx.show_events(it)[-160:])
+        ctx.require(not badm and n_t >= 2 and n_f >= 2, "R14.2", "must-skip-summary",
+                    "must_skip(path) is true exactly when path or an ancestor below the base is on the skip list (walks parent by parent)", msf.loc(msf.line),
+                    detail="; ".join(badm)[:500], fail="DirTourist::must_skip no longer answers `the path or an ancestor is on the skip list`: " + "; ".join(badm)[:300])
+        nxf = body_of(ctx, "R14.2", D + "::DirTourist::next")
+        rows = set()
+        for q in pathx.Enum(interesting=interesting).paths(thir.root(nxf)):
+            popped = [e for e in q.ev if e[0] == "iflet" and e[1].replace("^", "") == "Vec::pop(self.to_visit)"]
+            some = popped and (popped[0][3] if "Some" in popped[0][2] else not popped[0][3])
+            visits = [e for e in q.ev if e[0] == "call" and strip_generics(e[1]).endswith("DirTourist::visit_path")]
+            rows.add(("some" if some else "none", bool(visits), q.val if not visits else "visit"))
+        ctx.require(rows == {("some", True, "visit"), ("none", False, "Done")}, "R14.2", "next-table", "next(): a queued directory is visited; Done only when the queue is empty",
+                    nxf.loc(nxf.line), detail=str(sorted(rows)), fail="DirTourist::next no longer visits every queued directory before reporting Done: %s" % sorted(rows))
+    except Skip:
+        pass
+    # check_dir's own verdict table (shared with C03 R03.4): pruning is only as good as what check_dir answers
+    from . import c03 as _c03
+    _c03.consumers(ctx, "R14.2", only="check_dir")
+
     # ---- R14.3
     try:
         fo = body_of(ctx, "R14.3", D + "::from_origin")
